@@ -12,6 +12,7 @@ mod sched;
 mod lfu;
 mod ack;
 mod stress;
+mod stress2;
 
 use std::env;
 
@@ -27,6 +28,7 @@ fn main() {
         "lfu" => lfu::run_file(&args[2]),
         "ack" => ack::run_file(&args[2]),
         "stress" => stress::run(&args[2..]),
+        "stress2" => stress2::run(&args[2..]),
         other => {
             eprintln!("unknown sub-command {}", other);
             std::process::exit(2);
